@@ -11,8 +11,11 @@ args = sys.argv[1:]
 seeds = [1, 2, 3]
 if "--seeds" in args:
     i = args.index("--seeds"); seeds = [int(x) for x in args[i + 1].split(",")]; del args[i:i + 2]
+out_path = None
+if "--out" in args:
+    i = args.index("--out"); out_path = args[i + 1]; del args[i:i + 2]
 names = args or sorted(n for n in os.listdir(os.path.join(ROOT, "seeded")) if os.path.isdir(os.path.join(ROOT, "seeded", n)))
-mp = os.path.join(ROOT, "seeded", "matrix.json")
+mp = out_path or os.path.join(ROOT, "seeded", "matrix.json")
 matrix = json.load(open(mp)) if os.path.exists(mp) else {}
 
 
